@@ -10,7 +10,9 @@ def run(chk, replay=None):
     th = chk.tier == 'thorough'
     v = streams.vocab()
     names = [('Dbq7z', 'Cq9w'), ('déb', 'cöll'), ('Dq1', 'Cq2.archive.x'), ('Dq3', '$cmd'), ('Dq4', 'system.profile'), ('Dq5', 'Cq5'),
-             ('Dq5_eu', 'Cq5'), ('Dq52', 'Cq5x')]      # names that extend one another: Dq5 / Dq5_eu / Dq52, Cq5 / Cq5x (consecutive lines of related databases)
+             ('Dq5_eu', 'Cq5'), ('Dq52', 'Cq5x'),
+             ('9050617304', '6600447781'), ('Dq6', 'evq6.7770015523'), ('7f3a9c0e1b', '0c2f5e-Cq7 x')]      # names that extend one another: Dq5 / Dq5_eu / Dq52, Cq5 / Cq5x (consecutive lines of related databases);
+             # names made of digits only, with an all-digit component, hex-looking, with a hyphen and a blank: a name is a name whatever it looks like
     cases = []
     for i in range(1500 if th else 350):
         db, coll = rng.choice(names)
